@@ -147,7 +147,7 @@ struct SimState {
   std::deque<Island> islands;
   World w;
   std::vector<SimFile> files;
-  struct Fd { bool open = false; int file = -1; size_t pos = 0; };
+  struct Fd { bool open = false; int file = -1; size_t pos = 0; bool writable = false; bool append = false; };
   std::vector<Fd> fds;
   std::map<void *, size_t> heap;  // blocks allocated by real code
   std::map<FILE *, OutStream *> ostreams;
@@ -878,27 +878,91 @@ extern "C" int __wrap_open(const char *path, int flags, ...) {
     errno = a->err ? a->err : EMFILE;
     return -1;
   }
+  const bool wr = (flags & O_ACCMODE) != O_RDONLY;
   int fi = -1;
   for (size_t i = 0; i < G.files.size(); i++)
     if (G.files[i].path == path) fi = (int)i;
   if (fi < 0) {
-    errno = ENOENT;
+    if (!(flags & O_CREAT)) {
+      errno = ENOENT;
+      return -1;
+    }
+    std::string p(path);
+    if (p.empty() || !dir_exists(dir_of(p))) {
+      errno = ENOENT;
+      return -1;
+    }
+    SimFile sf;
+    sf.path = p;
+    G.files.push_back(sf);
+    fi = (int)G.files.size() - 1;
+  } else if ((flags & O_CREAT) && (flags & O_EXCL)) {
+    errno = EEXIST;
     return -1;
   }
   if (G.files[fi].kind == 1) {
     errno = EACCES;
     return -1;
   }
-  if (G.files[fi].kind == 2 && (flags & O_ACCMODE) != O_RDONLY) {
+  if (G.files[fi].kind == 2 && wr) {
     errno = EISDIR;
     return -1;
+  }
+  if (wr) {
+    if (flags & O_TRUNC) G.files[fi].data.clear();
+    G.files[fi].written = true;
+    G.files[fi].fopen_count++;
   }
   SimState::Fd fd;
   fd.open = true;
   fd.file = fi;
-  fd.pos = 0;
+  fd.pos = (flags & O_APPEND) ? G.files[fi].data.size() : 0;
+  fd.writable = wr;
+  fd.append = (flags & O_APPEND) != 0;
   G.fds.push_back(fd);
   return FD_BASE + (int)G.fds.size() - 1;
+}
+// write(2) from real code: to a descriptor of the simulated file system (a tree that bypasses stdio),
+// or to the process's stdout/stderr
+extern "C" ssize_t __real_write(int, const void *, size_t);
+extern "C" ssize_t __wrap_write(int fd, const void *buf, size_t n) {
+  if (!in_lib()) return __real_write(fd, buf, n);
+  HarnessScope hs_;
+  if (fd == 2) {
+    G.st.stderr_bytes += (long)n;
+    return (ssize_t)n;
+  }
+  int kind = fd == 1 ? K_OUT : K_CWRITE;
+  const EnvAns *a = answer(kind);
+  size_t take = n;
+  int err = 0;
+  if (a && (a->ans == ANS_FAIL || a->ans == ANS_SHORT) && n > 0) {
+    note_fired(kind);
+    err = a->err ? a->err : ENOSPC;
+    take = a->ans == ANS_FAIL ? 0 : std::min<size_t>(n - 1, (size_t)std::max(0L, a->arg));
+  }
+  if (fd == 1) {
+    G.out_cap.append((const char *)buf, take);
+  } else {
+    int k = fd - FD_BASE;
+    if (k < 0 || k >= (int)G.fds.size() || !G.fds[k].open || !G.fds[k].writable) {
+      errno = EBADF;
+      return -1;
+    }
+    SimFile &f = G.files[G.fds[k].file];
+    size_t pos = G.fds[k].append ? f.data.size() : G.fds[k].pos;
+    if (f.data.size() < pos + take) f.data.resize(pos + take);
+    size_t eff = (G.w.sabotage == 2 && take > 0) ? take - 1 : take;
+    memcpy(&f.data[pos], buf, eff);
+    if (eff < take) f.data.resize(pos + eff);
+    G.fds[k].pos = pos + take;
+  }
+  if (take == 0 && err) {
+    errno = err;
+    return -1;
+  }
+  if (take < n) errno = err;
+  return (ssize_t)take;
 }
 extern "C" int __wrap_fstat(int fd, struct stat *st) {
   if (!in_lib()) return __real_fstat(fd, st);
